@@ -118,7 +118,7 @@ func runC16(c *Ctx) {
 	sh := c.newShard("f16", runnerF, "caseF", "mismatches", "violations")
 	sh.limit = 40
 	pool := bloomFilePool(c, 8)
-	nSeq := c.pick(400, 8000)
+	nSeq := c.pick(500, 8000)
 	for i := 0; i < nSeq; i++ {
 		c16Sequence(c, sh, filepath.Join(scratch, fmt.Sprintf("s%d", i)), i, fixed, pool)
 	}
